@@ -173,6 +173,47 @@ def apply_r15(text, log, ctx):
     return R15B_RE.sub(b, text)
 
 
+R18_RE = re.compile(r"#\[cfg\(feature\s*=\s*\"(?P<feat>[A-Za-z0-9_]+)\"\)\]\s*")
+
+
+def apply_r18(text, log, ctx):
+    """R18: a STATEMENT gated by `#[cfg(feature = "...")]` is removed: the unit verifies the default configuration, in which
+    the (optional, off-by-default) feature is off and rustc drops that statement too.  Only statements (up to the `;` that ends
+    them at bracket depth 0) are handled; gated items / fields are left alone (they fail loudly if they matter)."""
+    out = []
+    pos = 0
+    while True:
+        m = R18_RE.search(text, pos)
+        if not m:
+            out.append(text[pos:])
+            break
+        # scan forward to the end of the statement
+        i = m.end()
+        depth = 0
+        n = len(text)
+        end = None
+        while i < n:
+            c = text[i]
+            if c in "([{":
+                depth += 1
+            elif c in ")]}":
+                if depth == 0:
+                    break
+                depth -= 1
+            elif c == ";" and depth == 0:
+                end = i + 1
+                break
+            i += 1
+        if end is None:
+            out.append(text[pos:m.end()])
+            pos = m.end()
+            continue
+        out.append(text[pos:m.start()])
+        log.append({"rule": "R18", "in": ctx, "before": re.sub(r"\s+", " ", text[m.start():end])[:160], "after": "(removed: feature `%s` is off in the verified configuration)" % m.group("feat")})
+        pos = end
+    return "".join(out)
+
+
 def apply_rewrites(text, log, ctx):
     """The declared mechanical rewrites R1,R2/R3,R6,R9 on a piece of extracted source text.
     Works on the token stream of `text`; returns new text."""
@@ -184,6 +225,8 @@ def apply_rewrites(text, log, ctx):
         text = apply_r15(text, log, ctx)
     if "R17" in ACTIVE_RULES:
         text = apply_r17(text, log, ctx)
+    if "R18" in ACTIVE_RULES:
+        text = apply_r18(text, log, ctx)
     if "R13" in ACTIVE_RULES:
         # R13: alpha-rename the method type parameter the derive macros use (__E/__D) to the name the trait
         # declaration uses (E/D): Verus mis-translates inherited ensures when the names differ (internal error)
